@@ -45,6 +45,25 @@ theorem write_commit {α : Type} (f : Tx α) (db db' : DB) (a : α) (h : f db = 
 /-- **`Client.Read` never changes the database**, whatever the closure does. -/
 theorem read_no_effect {α : Type} (f : DB → Except DbErr α) (db : DB) : (read f db).2 = db := rfl
 
+/-- **What an aborted transaction looked up is forgotten with it** — every later `Client.Read` closure `g`
+    and every later `Client.Write` closure `k` (any lookup by remote id, name, internal id, any count, any
+    further change) answers and acts exactly as if the failed transaction had never run, whatever that
+    transaction changed and read back before it failed.  In the model this is immediate because a lookup is
+    a function of the tables alone; the `db` correspondence puts exactly this to the real client
+    (sessions "change, look up inside, abort, look up again": harness/d_db_probe.go). -/
+theorem rollback_unobservable {α β : Type} (f : Tx α) (db : DB) (e : DbErr) (h : (write f db).1 = .error e) :
+    (∀ g : DB → Except DbErr β, read g (write f db).2 = read g db) ∧
+    (∀ k : Tx β, write k (write f db).2 = write k db) := by
+  rw [write_rollback f db e h]
+  exact ⟨fun _ => rfl, fun _ => rfl⟩
+
+/-- **A lookup sees the committed tables and the changes of its own transaction, nothing else** — inside a
+    transaction the answer of a read operation is the read function applied to the state the preceding
+    operations of that transaction produced (no answer is carried over from an earlier call or an earlier
+    transaction). -/
+theorem lookup_in_tx {α : Type} (g : DB → Except DbErr α) (db : DB) :
+    (Tx.ofRead g) db = (g db).map fun a => (a, db) := rfl
+
 /-! ## the regenerated call-site table -/
 
 /-- **Every chunk loop binds what it counts** — for every `for _, chunk := range
@@ -183,6 +202,19 @@ theorem sql_fault_follows_facts (S : Sites) (db : DB) (mb : MailboxId) (m : Mess
     first one survives -/
 example : write (do let _ ← createMailbox "r1" "A" [] [] [] 1; createMailbox "r1" "B" [] [] [] 2) DB.empty
     = (.error .unique, DB.empty) := rfl
+
+/-- a Write that creates a mailbox, resolves its remote id (`2`), and then fails: the remote id resolves to
+    nothing afterwards, in a Read as in a Write -/
+example :
+    let aborted := write (do
+      let _ ← createMailbox "r1" "A" [] [] [] 1
+      let _ ← createMailbox "ghost" "G" [] [] [] 2
+      let id ← Tx.ofRead (getMailboxIDFromRemoteID · "ghost")
+      if id = 2 then (Tx.fail .notFound : Tx Unit) else pure ()) DB.empty
+    aborted = (.error .notFound, DB.empty) ∧
+    (read (getMailboxIDFromRemoteID · "ghost") aborted.2).1 = .error .notFound ∧
+    (write (Tx.ofRead (getMailboxIDFromRemoteID · "ghost")) aborted.2).1 = .error .notFound := by
+  intro aborted; exact ⟨rfl, rfl, rfl⟩
 
 /-- the regenerated table is not empty and its chunk sizes are the expected ones -/
 example : Facts.chunkSites.length = 13 ∧ (factSites.site "SetFlagsOnMessages").size factSites.limit = 500 ∧
